@@ -267,8 +267,9 @@ class GeminiClient:
         if url in redirect_chain:
             raise ValueError(f"Redirect loop detected: {url}")
 
-        # Check max redirects
-        if len(redirect_chain) >= max_redirects:
+        # Check max redirects: the chain holds the redirects followed so far, so
+        # max_redirects redirects (max_redirects + 1 fetches) are allowed
+        if len(redirect_chain) > max_redirects:
             raise ValueError(f"Maximum redirects ({max_redirects}) exceeded at: {url}")
 
         # Get the URL
